@@ -673,9 +673,21 @@ class Subspace(IdealPoint):
             #for a pair of ideal points)
             base = halfspace_basis[..., :1, :]
             directions = halfspace_basis[..., 1:, :] - base
+
+            #a subspace through the point at infinity of the halfspace
+            #model is not a sphere (its ideal basis has non-finite
+            #coordinates): report nan parameters for it, as for any
+            #other degenerate sphere, instead of failing in pinv
+            at_infinity = ~np.isfinite(directions).all(axis=(-1, -2))
+            directions = np.where(
+                np.expand_dims(at_infinity, axis=(-1, -2)), 0., directions
+            )
+
             sq_lengths = np.expand_dims(utils.normsq(directions), axis=-2)
             center = (base + sq_lengths @ np.linalg.pinv(
                 directions.swapaxes(-1, -2)) / 2)[..., 0, :]
+            center = np.where(np.expand_dims(at_infinity, axis=-1),
+                              np.nan, center)
 
             #just use the first element of the basis
             radius = np.sqrt(
